@@ -342,6 +342,150 @@ func c11(c *an.Ctx) {
 		}
 	})
 
+	c.Check("R-BOOL", "getConnection decision table: nothing for an empty list; text filter unless externally managed without ApplyTextFilter; sort only when thunder manages the list; paginateManually unless externally managed without SetPageInfo; cursors set on every non-empty result. setCursors: start = first edge, end = last edge, untouched when empty", 6, func(o *an.O) {
+		fn := c.NeedFunc(sbp, "(*connectionContext).getConnection")
+		one := func(spec an.CalleeSpec, what string) ssa.Instruction {
+			calls := an.Calls(fn, spec)
+			an.Need(len(calls) == 1, "one "+what+" call in getConnection")
+			o.Site(calls[0])
+			return calls[0]
+		}
+		tf := one(an.Mod(sbp, "connectionContext", "applyTextFilter"), "applyTextFilter")
+		so := one(an.Mod(sbp, "connectionContext", "applySort"), "applySort")
+		pm := one(an.Mod(sbp, "Connection", "paginateManually"), "paginateManually")
+		ep := one(an.Mod(sbp, "Connection", "externallySetPageInfo"), "externallySetPageInfo")
+		sc := one(an.Mod(sbp, "Connection", "setCursors"), "setCursors")
+		optLoad := func(v ssa.Value, name string) bool {
+			ld, ok := v.(*ssa.UnOp)
+			if !ok || ld.Op != token.MUL {
+				return false
+			}
+			fa, ok := ld.X.(*ssa.FieldAddr)
+			return ok && an.FieldName(fa.X.Type(), fa.Field) == name
+		}
+		for mask := 0; mask < 16; mask++ {
+			empty, ext, applyTF, setPI := mask&1 != 0, mask&2 != 0, mask&4 != 0, mask&8 != 0
+			sim := &an.BoolSim{Fn: fn, Atom: func(v ssa.Value) (bool, bool) {
+				if call, ok := v.(*ssa.Call); ok {
+					if f := an.CalleeFunc(call.Common()); f != nil && f.Name() == "IsExternallyManaged" {
+						return ext, true
+					}
+				}
+				if optLoad(v, "ApplyTextFilter") {
+					return applyTF, true
+				}
+				if optLoad(v, "SetPageInfo") {
+					return setPI, true
+				}
+				if bo, ok := v.(*ssa.BinOp); ok {
+					if lc, ok := bo.X.(*ssa.Call); ok {
+						if b, ok := lc.Call.Value.(*ssa.Builtin); ok && b.Name() == "len" {
+							if n, ok := an.ConstInt(bo.Y); ok {
+								l := int64(3)
+								if empty {
+									l = 0
+								}
+								switch bo.Op {
+								case token.EQL:
+									return l == n, true
+								case token.NEQ:
+									return l != n, true
+								case token.GTR:
+									return l > n, true
+								case token.LSS:
+									return l < n, true
+								case token.GEQ:
+									return l >= n, true
+								case token.LEQ:
+									return l <= n, true
+								}
+							}
+						}
+					}
+				}
+				return false, false
+			}}
+			reached := sim.Run()
+			want := map[ssa.Instruction]bool{
+				tf: !empty && (!ext || applyTF),
+				so: !empty && !ext,
+				pm: !empty && !(ext && !setPI),
+				ep: !empty && ext && !setPI,
+				sc: !empty,
+			}
+			names := map[ssa.Instruction]string{tf: "applyTextFilter", so: "applySort", pm: "paginateManually", ep: "externallySetPageInfo", sc: "setCursors"}
+			for in, w := range want {
+				if reached[in.Block()] != w {
+					o.FailAt(in, "getConnection(empty=%v, externally managed=%v, ApplyTextFilter=%v, SetPageInfo=%v): %s runs: %v, expected %v", empty, ext, applyTF, setPI, names[in], reached[in.Block()], w)
+					return
+				}
+			}
+		}
+		// setCursors
+		scf := c.NeedFunc(sbp, "(*Connection).setCursors")
+		stores := map[string]ssa.Instruction{}
+		for _, f := range []string{"StartCursor", "EndCursor"} {
+			for _, r := range an.FieldRefs(scf, "", "PageInfo", f) {
+				if r.Kind == "store" {
+					stores[f] = r.Instr
+					o.Site(r.Instr)
+					src := an.Expr(r.Val)
+					okSrc := strings.HasSuffix(src, ".Cursor") && strings.Contains(src, ".Edges[")
+					if f == "StartCursor" && !strings.Contains(src, ".Edges[0]") {
+						okSrc = false
+					}
+					if f == "EndCursor" && !(strings.Contains(src, "(len(") && strings.Contains(src, " - 1)")) {
+						okSrc = false
+					}
+					if !okSrc {
+						o.FailAt(r.Instr, "PageInfo.%s is set from %s", f, an.Short(src, 70))
+					}
+				}
+			}
+			if stores[f] == nil {
+				o.Fail(p.Pos(scf.Pos()), "setCursors never sets PageInfo.%s: clients could not continue from this page", f)
+				return
+			}
+		}
+		for _, empty := range []bool{true, false} {
+			sim := &an.BoolSim{Fn: scf, Atom: func(v ssa.Value) (bool, bool) {
+				if bo, ok := v.(*ssa.BinOp); ok {
+					if lc, ok := bo.X.(*ssa.Call); ok {
+						if b, ok := lc.Call.Value.(*ssa.Builtin); ok && b.Name() == "len" {
+							if n, ok := an.ConstInt(bo.Y); ok {
+								l := int64(3)
+								if empty {
+									l = 0
+								}
+								switch bo.Op {
+								case token.EQL:
+									return l == n, true
+								case token.NEQ:
+									return l != n, true
+								case token.GTR:
+									return l > n, true
+								case token.LSS:
+									return l < n, true
+								case token.GEQ:
+									return l >= n, true
+								case token.LEQ:
+									return l <= n, true
+								}
+							}
+						}
+					}
+				}
+				return false, false
+			}}
+			reached := sim.Run()
+			for f, st := range stores {
+				if reached[st.Block()] == empty {
+					o.FailAt(st, "setCursors with an empty page=%v: PageInfo.%s is written: %v", empty, f, reached[st.Block()])
+				}
+			}
+		}
+	})
+
 	c.Check("R-GUARD", "paginateManually: Edges[:first] iff len > first, Edges[len-last:] iff len > last, flags set there; errors precede slicing; flags seeded from (before&&elemsAfter)/(after&&elemsBefore)", 5, func(o *an.O) {
 		fn := c.NeedFunc(sbp, "(*Connection).paginateManually")
 		cn := fn.Params[0].Name()
